@@ -4,7 +4,7 @@ patch="$1"; prop="$2"; shift 2
 cd /repo || exit 2
 if [ -n "$(git status --porcelain)" ]; then echo "repo dirty"; exit 2; fi
 git apply "$patch" || { echo "patch does not apply"; exit 2; }
-cd /verif && ./check "$prop" --tier quick "$@" 2>&1 | grep -E "VIOLATION|KNOWN|tier=|BUILD|  [a-z-]+/" | cut -c1-400 | head -20
+cd /verif && ./check "$prop" --tier quick "$@" 2>&1 | grep -a -E "VIOLATION|KNOWN|tier=|BUILD|  [a-z-]+/" | cut -c1-400 | head -20
 rc=${PIPESTATUS[0]}
 cd /repo && git checkout -- . && git status --porcelain
 rm -f /verif/replays/*.json
